@@ -108,6 +108,20 @@ def handleScan (ds : DState) (sc : ScanCase) : DState × Json :=
           | some ctx => (monitors ctx ob.j (sc.obs.outcome == "fatal:not-in-group" && (sc.obs.recs.getLast?.map (·.name)) == some ob.name)).map (fun m => match m.splitOn "|" with
             | [p, d] => p ++ ":" ++ ob.name ++ ":" ++ d
             | _ => m ++ ":" ++ ob.name))
+    -- C15 on the observed journals, paired with the recorded responses (ordered calls only)
+    let isOrdered (e : Entry) : Bool := match e.call with | .describeInstances _ => false | _ => true
+    let allObs : List (String × Entry) := sc.obs.pre.map (fun e => ("", e)) ++ sc.obs.recs.flatMap (fun r => r.j.map (fun e => (r.name, e)))
+    let paired : List (String × Entry × Resp) :=
+      (allObs.foldl (fun (acc : List (String × Entry × Resp) × List Resp) (ge : String × Entry) =>
+        if isOrdered ge.2 then
+          match acc.2 with
+          | r :: rs => (acc.1 ++ [(ge.1, ge.2, r)], rs)
+          | [] => (acc.1 ++ [(ge.1, ge.2, Resp.fail)], [])
+        else (acc.1 ++ [(ge.1, ge.2, Resp.fail)], acc.2)) ([], sc.resps)).1
+    let mon15 : List String := ds.ctl.cfgs.flatMap (fun c =>
+      let mine := (paired.filter (fun t => t.1 == c.name)).map (fun t => t.2)
+      (Spec.C15.bad (sc.nowReal / 1000000000) c.taintEffect none mine).map (fun n => "C15:" ++ c.name ++ ":" ++ n))
+    let mons := mons ++ mon15
     let diffs := dOutcome ++ dPre ++ dRecs ++ dStates
     let branches := out.recs.map (fun m => m.name ++ ":" ++ m.branch)
     let base : List (String × Json) :=
@@ -119,7 +133,16 @@ def handleScan (ds : DState) (sc : ScanCase) : DState × Json :=
             ("pre", toJson out.pre),
             ("recs", toJson (out.recs.map (fun m => Json.mkObj [("name", toJson m.name), ("j", toJson m.j), ("delta", toJson m.delta), ("err", toJson m.err), ("branch", toJson m.branch)]))),
             ("states", toJson (out.st.groups.map (fun (n, s) => stateOf n s)))])]
-    ({ ds with st := some out.st }, Json.mkObj (base ++ detail))
+    -- after a disagreement on controller state, continue from what the implementation holds, so that one
+    -- divergence is reported once and does not cascade through the rest of the history
+    let resync (n : String) (s : GState) : GState :=
+      match sc.obs.states.find? (fun os => os.name == n) with
+      | some os => { s with lock := ⟨os.isLocked, os.requested, os.lockTime⟩, scaleDelta := os.scaleDelta, lastScaleOut := os.lastScaleOut,
+                            cachedCPU := os.cachedCPU, cachedMem := os.cachedMem, taintTracker := os.taintTracker,
+                            forceTaintTracker := os.forceTaintTracker, minEff := os.minEff, maxEff := os.maxEff }
+      | none => s
+    let st' : CState := if dStates.isEmpty then out.st else { out.st with groups := out.st.groups.map (fun (n, s) => (n, resync n s)) }
+    ({ ds with st := some st' }, Json.mkObj (base ++ detail))
 
 def shiftState (d : Int) (st : CState) : CState :=
   { st with groups := st.groups.map (fun (n, s) =>
